@@ -145,6 +145,10 @@ type c18Case struct {
 	// WS (end to end only, instead of TLS): WebSocket transport, where the keepalive is a ping frame the library waits
 	// to be answered; the wrapped Transport counts the attempts (the ping frames themselves are not visible to the peer)
 	WS bool `json:"ws,omitempty"`
+	// PriorDisconnect (end to end, TCP, steady mode): the same Client had an earlier session which the application
+	// ended with Disconnect - still in flight, the server never answers the stream end - and reconnected as soon as the
+	// loss was reported; the new session is then watched for longer than Transport.Close waits (ConnectTimeout, 1 s)
+	PriorDisconnect bool `json:"prior_disconnect,omitempty"`
 }
 
 func genC18(t *rapid.T) c18Case {
@@ -168,6 +172,10 @@ func genC18(t *rapid.T) c18Case {
 		c.SlowHandler = rapid.Bool().Draw(t, "slowHandler")
 		if !c.TLS && rapid.IntRange(0, 2).Draw(t, "ws") == 0 {
 			c.WS = true
+		}
+		if !c.WS && c.FailAt == 0 && rapid.IntRange(0, 2).Draw(t, "priorDisconnect") == 0 {
+			c.PriorDisconnect = true
+			c.SlowHandler = false
 		}
 	}
 	return c
@@ -318,6 +326,19 @@ func runC18E2E(c c18Case) vh.Result {
 		addr = wsrv.URL
 	} else {
 		srv, err := peer.Listen(func(pc *peer.Conn) {
+			if c.PriorDisconnect && pc.Index == 0 {
+				// the earlier session: the server never answers the client's stream end, it just goes away
+				if out := pc.Negotiate(&peer.Script{Mechs: []string{"PLAIN"}, OfferTLS: c.TLS, Cert: "valid"}, 10*time.Second); !out.Established {
+					return
+				}
+				for {
+					if ev := pc.NextElem(10 * time.Second); ev.Kind != "elem" {
+						break
+					}
+				}
+				pc.Close()
+				return
+			}
 			pconn = pc
 			out := pc.Negotiate(&peer.Script{Mechs: []string{"PLAIN"}, OfferTLS: c.TLS, Cert: "valid"}, 10*time.Second)
 			if !out.Established {
@@ -369,6 +390,20 @@ func runC18E2E(c c18Case) vh.Result {
 			}
 			return err
 		})
+	}
+	disc0 := 0
+	if c.PriorDisconnect {
+		res.Label("after-disconnect-in-flight")
+		if err := cl.Connect(); err != nil {
+			res.Fail("harness-prior", "prior Connect: %v", err)
+			return res
+		}
+		go func() { _ = cl.Disconnect() }()
+		if !waitFor(vh.Margin(5*time.Second), func() bool { return rec.count(xmpp.StateDisconnected) >= 1 }) {
+			res.Fail("harness-prior", "the end of the prior session was not reported")
+			return res
+		}
+		disc0 = rec.count(xmpp.StateDisconnected)
 	}
 	start := time.Now()
 	if err := cl.Connect(); err != nil {
@@ -424,6 +459,14 @@ func runC18E2E(c c18Case) vh.Result {
 	}
 	// steady phase: keepalives arrive, each a single newline, never faster than the interval
 	time.Sleep(interval * time.Duration(c.RunFor))
+	if c.PriorDisconnect {
+		// outlast the Close of the prior session, then make sure keepalives still flow
+		time.Sleep(time.Until(start.Add(1300 * time.Millisecond)))
+		k1, _ := wsBytes()
+		if !waitFor(vh.Margin(3*time.Second)+20*interval, func() bool { k, _ := wsBytes(); return k > k1 }) && rec.count(xmpp.StateDisconnected) == disc0 {
+			res.Fail("t/keepalive-stopped", "%s: no further keepalive reached the server 1.3 s into the new session (%d before)", desc, k1)
+		}
+	}
 	n, bad := wsBytes()
 	el := time.Since(start)
 	if bad != "" {
@@ -438,7 +481,7 @@ func runC18E2E(c c18Case) vh.Result {
 		}
 	}
 	// the keepalives did no harm: the session is still up and a stanza sent now is routed
-	if n := rec.count(xmpp.StateDisconnected); n > 0 {
+	if n := rec.count(xmpp.StateDisconnected); n > disc0 {
 		_, errs, _ := rec.snapshot()
 		res.Fail("session-lost-while-keepalives-flow", "%s: the server did nothing but read, yet the session was reported lost after %v (errors %v)", desc, time.Since(start), errs)
 		return res
@@ -459,7 +502,7 @@ func runC18E2E(c c18Case) vh.Result {
 	}
 	// session end: cut the connection, keepalives must stop
 	close(cut)
-	waitFor(vh.Margin(5*time.Second), func() bool { return rec.count(xmpp.StateDisconnected) >= 1 })
+	waitFor(vh.Margin(5*time.Second), func() bool { return rec.count(xmpp.StateDisconnected) >= disc0+1 })
 	time.Sleep(3 * interval)
 	pings1, _ := wrap.snapshot()
 	time.Sleep(5 * interval)
@@ -480,7 +523,7 @@ func runC18E2E(c c18Case) vh.Result {
 
 var c18 = vh.Define(&vh.Def[c18Case]{
 	Property: "C18", Name: "keepalive",
-	Rule: "interval 2-40 ms x {k-th keepalive write fails, k in 1-10 | session ends after a generated fraction of the interval (1-100 tenths) | steady} x {bare keepalive loop on a stub Transport | real Client whose Transport is wrapped (Ping fails at k) against the scripted peer, the session ending by a cut of the connection or by </stream:stream> on a connection that stays open, over clear-text TCP, STARTTLS or WebSocket (ping frames; attempts counted in the wrapped Transport), the application's Disconnected handler returning at once or after 8 intervals (at most one keepalive may be attempted while it runs)}; oracle: n keepalives never take less than (n-1) intervals (a ticker never fires early: sound upper bound on the rate) at least one within 100 intervals + 3 s, each is a single newline on the wire, after the failing keepalive Close is called exactly once, no further keepalive follows, the loop returns and (end to end) the loss is reported by one error callback and one Disconnected event, no keepalive starts later than max(3 intervals, 100 ms) after the session ended and the loop returns; non-trivial = a failure index or an end time was drawn, or the end-to-end variant",
+	Rule: "interval 2-40 ms x {k-th keepalive write fails, k in 1-10 | session ends after a generated fraction of the interval (1-100 tenths) | steady} x {bare keepalive loop on a stub Transport | real Client whose Transport is wrapped (Ping fails at k) against the scripted peer, the session ending by a cut of the connection or by </stream:stream> on a connection that stays open, over clear-text TCP, STARTTLS or WebSocket (ping frames; attempts counted in the wrapped Transport), in a third of the steady TCP cases after an earlier session of the same Client whose Disconnect is still in flight (the server never answers the stream end) and with the new session watched for 1.3 s, the application's Disconnected handler returning at once or after 8 intervals (at most one keepalive may be attempted while it runs)}; oracle: n keepalives never take less than (n-1) intervals (a ticker never fires early: sound upper bound on the rate) at least one within 100 intervals + 3 s, each is a single newline on the wire, after the failing keepalive Close is called exactly once, no further keepalive follows, the loop returns and (end to end) the loss is reported by one error callback and one Disconnected event, no keepalive starts later than max(3 intervals, 100 ms) after the session ended and the loop returns; non-trivial = a failure index or an end time was drawn, or the end-to-end variant",
 	Quick: 160, Thorough: 2400, Journal: true,
 	Gen: genC18, Run: runC18,
 })
